@@ -107,8 +107,52 @@ pub fn impl_answer(case: &Case) -> String {
             let spec = CtxSpec::from_sx(&payload[0]).expect("bad ctx");
             eval_on_impl(&spec, case.src.as_deref(), payload.get(1))
         }
+        "macro" => {
+            let src = case.src.clone().unwrap_or_default();
+            match quietly(|| catch_unwind(|| cel_parser::Parser::new().parse(&src))) {
+                Err(_) => "(panic)".to_string(),
+                Ok(Err(_)) => "(macro-error)".to_string(),
+                Ok(Ok(ast)) => match &ast.expr {
+                    cel_parser::ast::Expr::Call(_) => "(not-macro)".to_string(),
+                    _ => format!("(expanded {})", expr_to_sx(&ast).to_text()),
+                },
+            }
+        }
         _ => "(bad-case)".to_string(),
     }
+}
+
+/// For observations that depend on the unspecified iteration order of a map: sort the entries
+/// of the call log and of a top-level result list.
+pub fn normalize_unordered(ans: &str) -> String {
+    fn sort_children(x: &Sx, tag: &str) -> Sx {
+        match x {
+            Sx::List(v) if v.first().and_then(|a| a.as_atom()) == Some(tag) => {
+                let mut rest: Vec<String> = v[1..].iter().map(|c| c.to_text()).collect();
+                rest.sort();
+                let mut out = vec![v[0].clone()];
+                out.extend(rest.into_iter().map(Sx::Atom));
+                Sx::List(out)
+            }
+            other => other.clone(),
+        }
+    }
+    let parsed = parse_all(ans);
+    let mut out = vec![];
+    for x in parsed {
+        if let Sx::List(v) = &x {
+            if v.first().and_then(|a| a.as_atom()) == Some("res") && v.len() == 3 {
+                let outcome = match &v[1] {
+                    Sx::List(o) if o.len() == 2 && o[0].as_atom() == Some("ok") => Sx::List(vec![o[0].clone(), sort_children(&o[1], "list")]),
+                    o => o.clone(),
+                };
+                out.push(Sx::List(vec![v[0].clone(), outcome, sort_children(&v[2], "log")]).to_text());
+                continue;
+            }
+        }
+        out.push(x.to_text());
+    }
+    out.join(" ")
 }
 
 /// Compile `src` with the real parser and build the `eval` case whose payload carries the AST
